@@ -40,6 +40,11 @@ def check_accept(inp):
         want_fields = sorted(f for f in want[len(prefix):].split("/") if f)
         if got_fields != want_fields:
             return [failure(want_fields, got_fields, note="accepted object does not hold the metrics of the input")]
+    if inp.get("plain_subclass", True) and len(s) < 400:
+        # the same characters as an instance of a str subclass that adds and overrides nothing: a Python str value like any other
+        kind2, val2 = obs.construct(ver, obs.PlainStr(s))
+        if kind2 != kind:
+            return [failure(kind, kind2, note="the same string as an instance of 'class PlainStr(str): __slots__ = ()'")]
     return []
 
 
